@@ -14,7 +14,7 @@
    XmiRt.wf_rtb for the XMI reader leg (C01), doc_ok_json of the written JSON document (C02: proved for its closed part),
    0 < next id, the document has the initial view.  That the XMI reader succeeds is a hypothesis as in C01.
    The statements of the first build that take inline_outline_at as a premise are kept (suffix _partial). *)
-From Cassis Require Import Base Heap Schema Canon Reach JsonDoc Json JsonProofs JsonLoadProofs CorrC02 Convert ConvertWf ConvertInline ConvertProofs.
+From Cassis Require Import Base Heap Schema Canon Reach JsonDoc Json JsonProofs JsonLoadProofs JsonWf CorrC02 Convert ConvertWf ConvertInline ConvertProofs.
 From Cassis Require Lex Xmi XmiDoc XmiLoad XmiRt XmiRtTotal XmiExample.
 From Cassis.Props Require C02.
 Open Scope Z_scope.
@@ -46,6 +46,14 @@ Theorem C16_xmi_json_xmi : forall L s mode c1 j c1',
   exists x, Xmi.canon_xmi s c1' = Ok x /\ (do y <- load_json L s j ;; inline_of s y) = Ok x.
 Proof. exact xmi_json_xmi. Qed.
 Print Assumptions C16_xmi_json_xmi.
+
+(* ... and no premise about the written document: doc_ok_json j follows from the CAS (C02 json_doc_ok, premise typed_jsonb) *)
+Theorem C16_xmi_json_xmi_total : forall L s mode c1 j c1',
+  lex_ok L -> save_json L s mode c1 = Ok (j, c1') -> wf_convb s c1' = true -> typed_jsonb s c1' = true -> 0 < c_next_id c1 ->
+  initial_view_in c1' = true ->
+  exists x, Xmi.canon_xmi s c1' = Ok x /\ (do y <- load_json L s j ;; inline_of s y) = Ok x.
+Proof. exact xmi_json_xmi_total. Qed.
+Print Assumptions C16_xmi_json_xmi_total.
 
 Theorem C16_json_leg_preserves : forall L s mode c1 j c1' cc,
   lex_ok L -> save_json L s mode c1 = Ok (j, c1') -> wf_jsonb s c1' = true -> 0 < c_next_id c1 ->
@@ -122,7 +130,7 @@ Example C16_premises_hold :
   let s := full_schema (c_user C02.ex_case) in
   match save_json std_lex s MFull (c_cas C02.ex_case) with
   | Ok (j, c') =>
-      wf_convb s c' = true /\ XmiRtTotal.wf_rt_totalb s c' = true /\ 0 < c_next_id (c_cas C02.ex_case) /\
+      wf_convb s c' = true /\ typed_jsonb s c' = true /\ XmiRtTotal.wf_rt_totalb s c' = true /\ 0 < c_next_id (c_cas C02.ex_case) /\
       doc_ok_json std_lex s j = true /\ initial_view_in c' = true /\
       load_json std_lex s j = canon_json s c' /\
       match canon_json s c', Xmi.canon_xmi s c' with Ok _, Ok x => (2 <= List.length (cc_fs x))%nat | _, _ => False end
@@ -134,7 +142,7 @@ Proof. vm_compute. repeat split; try reflexivity; repeat constructor. Qed.
    wf_convb and wf_rtb; its JSON view lists 7 structures, its XMI view 5 *)
 Example C16_premises_hold_inline :
   let s := (XmiExample.ex_schema ++ [mkTi "uima.cas.NULL" ["uima.cas.NULL"; "uima.cas.TOP"] []])%list in
-  wf_convb s XmiExample.ex_cas = true /\ XmiRtTotal.wf_rt_totalb s XmiExample.ex_cas = true /\
+  wf_convb s XmiExample.ex_cas = true /\ typed_jsonb s XmiExample.ex_cas = true /\ XmiRtTotal.wf_rt_totalb s XmiExample.ex_cas = true /\
   match canon_json s XmiExample.ex_cas, Xmi.canon_xmi s XmiExample.ex_cas with
   | Ok j, Ok x => List.length (cc_fs j) = 7%nat /\ List.length (cc_fs x) = 5%nat
   | _, _ => False
